@@ -324,6 +324,10 @@ func runC17(r *rt.Run) {
 	// objects obtained from Parse
 	seeds := append(append(docgen.Seeds(), floatSeeds()...), invalidSeeds()...)
 	seeds = append(seeds, docgen.LargeDocs()...) // buffer growth with thousands of positions / hundreds of children
+	seeds = append(seeds, docgen.MemberDocs()...)
+	seeds = append(seeds, docgen.StringDocs()...) // every string unit and pair of units as member key / value
+	r.Bounds["parsed_documents"] = len(seeds)
+	r.Bounds["string_units"] = len(docgen.StringUnits())
 	for _, s := range seeds {
 		for _, os := range []optSet{optDefault, optAlt} {
 			o, err, _ := parseChecked(s, os.O)
